@@ -288,6 +288,78 @@ func init() {
 		}
 		return TupleV{it.ts.BV(uint64(b.len), 64), &IfaceV{}}
 	}
+	// digests and password hashing: uninterpreted functions (sha1 assumed collision-free)
+	intercepts["crypto/sha1.New"] = func(it *Interp, fn *ssa.Function, args []Value) Value {
+		pkg := it.prog.ImportedPackage("crypto/sha1")
+		ensureBuilt(pkg)
+		dt := pkg.Type("digest").Type()
+		cell := it.newCell(it.zero(dt), dt, "sha1.digest")
+		it.digests[cell.id] = []*Term{}
+		return &IfaceV{t: types.NewPointer(dt), v: &Ptr{cell: cell}}
+	}
+	intercepts["(*crypto/sha1.digest).Write"] = func(it *Interp, fn *ssa.Function, args []Value) Value {
+		p := args[0].(*Ptr)
+		data := it.sliceTerms(args[1].(*SliceV))
+		it.digests[p.cell.id] = append(it.digests[p.cell.id], data...)
+		return TupleV{it.ts.BV(uint64(len(data)), 64), &IfaceV{}}
+	}
+	intercepts["(*crypto/sha1.digest).Sum"] = func(it *Interp, fn *ssa.Function, args []Value) Value {
+		p := args[0].(*Ptr)
+		out := it.digestUF("sha1", it.digests[p.cell.id], 20)
+		var add []Value
+		for _, t := range out {
+			add = append(add, t)
+		}
+		return it.appendVals(args[1].(*SliceV), add, fn.Signature.Params().At(0).Type())
+	}
+	intercepts["golang.org/x/crypto/bcrypt.CompareHashAndPassword"] = func(it *Interp, fn *ssa.Function, args []Value) Value {
+		h := it.sliceTerms(args[0].(*SliceV))
+		pw := it.sliceTerms(args[1].(*SliceV))
+		all := append(append([]*Term{}, h...), pw...)
+		ok := it.ts.UF(fmt.Sprintf("bcrypt_ok_%d_%d", len(h), len(pw)), 0, all...)
+		if it.branch(ok) {
+			return &IfaceV{}
+		}
+		return it.makeError(concStr("crypto/bcrypt: hashedPassword is not the hash of the given password"), nil)
+	}
+	intercepts["golang.org/x/crypto/bcrypt.GenerateFromPassword"] = func(it *Interp, fn *ssa.Function, args []Value) Value {
+		pw := it.sliceTerms(args[0].(*SliceV))
+		n := 2 // same length as the longest symbolic hash the harnesses query with, so keys can collide
+		h := make([]*Term, n)
+		for i := range h {
+			h[i] = it.ts.Var(8, "bcrypthash")
+		}
+		all := append(append([]*Term{}, h...), pw...)
+		it.assume(it.ts.UF(fmt.Sprintf("bcrypt_ok_%d_%d", n, len(pw)), 0, all...))
+		return TupleV{it.bytesToSlice(h), &IfaceV{}}
+	}
+	intercepts["golang.org/x/crypto/bcrypt.Cost"] = func(it *Interp, fn *ssa.Function, args []Value) Value {
+		h := it.sliceTerms(args[0].(*SliceV))
+		c := it.ts.UF(fmt.Sprintf("bcrypt_cost_%d", len(h)), 64, h...)
+		it.assume(it.ts.ULe(c, it.ts.BV(31, 64)))
+		return TupleV{c, &IfaceV{}}
+	}
+	intercepts["github.com/google/uuid.NewString"] = func(it *Interp, fn *ssa.Function, args []Value) Value {
+		v := it.ts.Var(64, "uuid")
+		for _, o := range it.uuids {
+			it.assume(it.ts.Not(it.ts.Eq(v, o)))
+		}
+		it.uuids = append(it.uuids, v)
+		return &StrV{b: []*Term{it.ts.Num(v, 0)}}
+	}
+	randIntn := func(it *Interp, fn *ssa.Function, args []Value) Value {
+		n := args[0].(*Term)
+		v := it.ts.Var(n.w, "rand")
+		if n.IsConst() && n.cval == 0 {
+			it.goPanicf("invalid argument to Intn")
+		}
+		it.assume(it.ts.ULt(v, n))
+		return v
+	}
+	intercepts["math/rand.Intn"] = randIntn
+	intercepts["math/rand.Int63n"] = randIntn
+	intercepts["math/rand.Int31n"] = randIntn
+	intercepts["math/rand/v2.IntN"] = randIntn
 	intercepts["time.Sleep"] = noop
 	intercepts["runtime.SetFinalizer"] = noop
 	intercepts["math/bits.Len64"] = nil
@@ -736,4 +808,58 @@ func jsonUnmarshalStub(it *Interp, fn *ssa.Function, args []Value) Value {
 	}
 	it.store(tgt.v.(*Ptr), strFromBytes(data[i+1:k]))
 	return &IfaceV{}
+}
+
+type digestApp struct {
+	kind string
+	in   []*Term
+	out  []*Term
+}
+
+// digestUF models a cryptographic digest as an uninterpreted function of its input bytes that is
+// assumed collision-free (axiom instances are added for every pair of applications on the path).
+func (it *Interp) digestUF(kind string, in []*Term, outLen int) []*Term {
+	ts := it.ts
+	for _, a := range it.digestApps {
+		if a.kind == kind && len(a.in) == len(in) {
+			same := true
+			for i := range in {
+				if a.in[i] != in[i] {
+					same = false
+					break
+				}
+			}
+			if same {
+				return a.out
+			}
+		}
+	}
+	out := make([]*Term, outLen)
+	for i := range out {
+		if len(in) == 0 {
+			out[i] = ts.BV(uint64(0xda+i), 8)
+		} else {
+			out[i] = ts.UF(fmt.Sprintf("%s_%d_o%d", kind, len(in), i), 8, in...)
+		}
+	}
+	for _, a := range it.digestApps {
+		if a.kind != kind {
+			continue
+		}
+		outEq := ts.Bool(true)
+		for i := range out {
+			outEq = ts.And(outEq, ts.Eq(out[i], a.out[i]))
+		}
+		if len(a.in) != len(in) {
+			it.assume(ts.Not(outEq))
+			continue
+		}
+		inEq := ts.Bool(true)
+		for i := range in {
+			inEq = ts.And(inEq, ts.Eq(in[i], a.in[i]))
+		}
+		it.assume(ts.Implies(outEq, inEq))
+	}
+	it.digestApps = append(it.digestApps, digestApp{kind, in, out})
+	return out
 }
